@@ -63,6 +63,7 @@ static size_t root_len;
 static int trace_fd = -1;
 static long op_counter;
 static long faults_fired;
+static size_t io_cap; /* SIM_IOCAP: every tracked read/write transfers at most this many bytes */
 static int inited;
 
 #define MAX_FD 4096
@@ -142,6 +143,7 @@ static void sim_init(void)
     const char *e;
     if ((e = getenv("DETRAND_SEED")) && *e) { have_seed = 1; rand_seed = strtoull(e, NULL, 10); }
     if ((e = getenv("SIM_DIRSEED")) && *e) dir_seed = strtoull(e, NULL, 10);
+    if ((e = getenv("SIM_IOCAP")) && *e) io_cap = (size_t)strtoull(e, NULL, 10);
     if ((e = getenv("SIM_ROOT")) && *e && strlen(e) < sizeof root) { strcpy(root, e); root_len = strlen(root); }
     if ((e = getenv("SIM_TRACE")) && *e)
         trace_fd = (int)syscall(SYS_open, e, O_WRONLY | O_CREAT | O_APPEND | O_CLOEXEC, 0644);
@@ -312,6 +314,7 @@ ssize_t read(int fd, void *buf, size_t count)
     case K_SHORT1: if (count > 1) want = 1; break;
     default: break;
     }
+    if (io_cap && want > io_cap) want = io_cap;
     if (err) {
         faults_fired++;
         trace("%ld read fd %lu -1 %s\n", idx, (unsigned long)count, kind_name[k]);
@@ -347,6 +350,7 @@ ssize_t write(int fd, const void *buf, size_t count)
     case K_SHORT1: if (count > 1) want = 1; break;
     default: break;
     }
+    if (io_cap && want > io_cap) want = io_cap;
     if (err) {
         faults_fired++;
         trace("%ld write fd %lu -1 %s\n", idx, (unsigned long)count, kind_name[k]);
